@@ -273,7 +273,8 @@ pub fn vis_cfg() -> impl Strategy<Value = VisCfg> {
         prop_oneof![2 => Just(0.0f32), 1 => 0.2f32..0.8],
         prop_oneof![2 => Just(0.0f32), 1 => 0.2f32..0.8],
         prop_oneof![2 => Just(0.0f32), 1 => 400.0f32..2500.0],
-        prop_oneof![3 => Just((0.0f32, 0.0f32)), 1 => (0.2f32..0.8, 0.2f32..0.8)],
+        // own-area thresholds: none, both, or only one of the two
+        prop_oneof![4 => Just((0.0f32, 0.0f32)), 1 => (0.2f32..0.8, 0.2f32..0.8), 1 => (0.2f32..0.8).prop_map(|u| (u, 0.0f32)), 1 => (0.2f32..0.8).prop_map(|c| (0.0f32, c))],
     )
         .prop_map(|(cosine, (te, tc), min_votes, max_obs, mtl, q_use, q_collect, min_area, (own_use, own_collect))| VisCfg {
             cosine,
